@@ -1,6 +1,6 @@
 (* Shared by RunC02 / RunC03: the live configuration, text reconstruction from interned lines, comparison of mapsets. *)
 From Coq Require Import String ZArith QArith Qround Qabs List Bool.
-From RV Require Export Base.PyNum Timing.Snapper Timing.Snap Timing.TimingMap Timing.Reseat Timing.Integrate
+From RV Require Export Base.PyNum Timing.Snapper Timing.Snap Timing.TimingMap Timing.Reseat Timing.Integrate Timing.Domain
   Formats.SMText Formats.SM Formats.SMSpec Generated.Tables.
 Import ListNotations.
 Open Scope Q_scope.
